@@ -228,6 +228,27 @@ func (p *pipeComp) Generate(rng *rand.Rand, n int, emit func(Case)) {
 		return []byte(fmt.Sprintf("<%d>1 %s %s %s %s %s %s %s", pri, ts, host, app, pid, src, extra, msg))
 	}
 	sentinel := mkLine(14, "2020-01-02T03:04:05.123456Z", "sentinel-host", "sentinel-app", "1", "sentinel-src", "-", "sentinel message, intact")
+	// MessagePack length classes: messages whose length (and rewritten length) is exactly at 255/256, 65535/65536/65537
+	for _, esc := range []bool{false, true} {
+		lvb := make([][]byte, len(syslogprotocol.SeverityNames))
+		for k, l := range syslogprotocol.SeverityNames {
+			lvb[k] = []byte(l)
+		}
+		ops := []Op{
+			{Name: "parse cfg", Ints: []int64{70000, 70400, 64}, Bytes: lvb},
+			{Name: "ser cfg", Strs: []string{"N=" + strings.Join(hexNames, ","), "E=9,10", "X=" + hx([]byte("host")) + "," + hx([]byte("app")), "H=6", "R=14:u"}},
+			xLoadOp(nil),
+		}
+		for _, l := range []int{31, 32, 255, 256, 257, 65535, 65536, 65537} {
+			msg := strings.Repeat("m", l)
+			if esc && l > 4 {
+				msg = "a\\nb" + strings.Repeat("m", l-4)
+			}
+			ops = append(ops, Op{Name: "pipe run", Ints: []int64{1577934245, 7}, Bytes: [][]byte{mkLine(14, "2020-01-02T03:04:05Z", "h", "a", "1", "s", "-", msg)}})
+			ops = append(ops, Op{Name: "pipe run", Ints: []int64{1577934245, 0}, Bytes: [][]byte{sentinel}, Meta: "sentinel"})
+		}
+		emit(Case{Ops: ops, Tag: "length-classes"})
+	}
 	for i := 0; i < n/10; i++ {
 		// program: copy syslog fields into the generator's fields, then generated steps
 		copyStep := xStep{kind: "add"}
@@ -261,13 +282,18 @@ func (p *pipeComp) Generate(rng *rand.Rand, n int, emit func(Case)) {
 		nl := 8
 		for k := 0; k < nl; k++ {
 			var line []byte
-			switch rng.Intn(6) {
+			switch rng.Intn(7) {
 			case 0:
 				line = []byte(badLines[rng.Intn(len(badLines))])
 			case 1:
 				b := make([]byte, rng.Intn(120))
 				rng.Read(b)
 				line = append([]byte("<13>1 "), b...)
+			case 5:
+				// an oversized header (record over the limit) in front of a message of continuation bytes only, or of a
+				// multi-byte character cut short: the UTF-8 clean-up runs on the shortest possible inputs
+				line = mkLine(13, "2019-08-15T15:50:46Z", strings.Repeat("H", maxMsg+400+rng.Intn(50)), "a", "1", "s", "-",
+					[]string{"\x80", "\x80\xbf", "\xbf\xbf\xbf", "\xf0\x9f", "\xe6\x97", "\xc3", "a\xf0\x9f\x98"}[rng.Intn(7)])
 			case 2:
 				line = mkLine(rng.Intn(200), []string{"-", "2019-08-15T15:50:46.866915+03:00", "2019-08-15", "", "2019-08-15T15:50:46Z"}[rng.Intn(5)],
 					xVal(rng), "a", "1", "s", "[x]", strings.Repeat(xVal(rng), 1+rng.Intn(30)))
